@@ -450,51 +450,55 @@ ConcReplyOk(exp, got, lenient) ==
 ChainSteps(ch) == [i \in 1..(3 * Len(ch)) |-> <<ch[((i - 1) \div 3) + 1][1], CASE (i - 1) % 3 = 0 -> "Gk" [] (i - 1) % 3 = 1 -> "W" [] OTHER -> "R",
                                                  BlkOf(ch[((i - 1) \div 3) + 1][2])>>]
 
-ApplyChainStep(s, step, orc) ==
+\* one critical section of a chain event: resulting state and the transactions it submits to the node
+ChainStepX(s, step, orc) ==
     LET blk == step[3]
-    IN CASE step[1] = "disc" /\ step[2] = "Gk" -> GkDisconnectF(s, blk.h)
-         [] step[1] = "disc" /\ step[2] = "W" -> WDisconnectF(s, blk)
-         [] step[1] = "disc" /\ step[2] = "R" -> RDisconnectF(s, blk)
-         [] step[1] = "conn" /\ step[2] = "Gk" -> GkConnectF(s, blk.h)
-         [] step[1] = "conn" /\ step[2] = "W" -> WConnectF(s, blk, orc).st
-         [] OTHER -> RConnectF(s, blk, orc).st
+        plain(x) == [st |-> x, sends |-> {}]
+    IN CASE step[1] = "disc" /\ step[2] = "Gk" -> plain(GkDisconnectF(s, blk.h))
+         [] step[1] = "disc" /\ step[2] = "W" -> plain(WDisconnectF(s, blk))
+         [] step[1] = "disc" /\ step[2] = "R" -> plain(RDisconnectF(s, blk))
+         [] step[1] = "conn" /\ step[2] = "Gk" -> plain(GkConnectF(s, blk.h))
+         [] step[1] = "conn" /\ step[2] = "W" -> LET x == WConnectF(s, blk, orc) IN [st |-> x.st, sends |-> x.sends]
+         [] OTHER -> LET x == RConnectF(s, blk, orc) IN [st |-> x.st, sends |-> x.sends]
+ApplyChainStep(s, step, orc) == ChainStepX(s, step, orc).st
 
 RECURSIVE ApplySteps(_, _, _, _)
 ApplySteps(s, steps, i, orc) == IF i > Len(steps) THEN s ELSE ApplySteps(ApplyChainStep(s, steps[i], orc), steps, i + 1, orc)
 ApplyChain(s, ch, i, orc) == ApplySteps(s, ChainSteps(ch), i, orc)
 
 ApplyApi(s, o, orc) ==
-    CASE o.op = "register" -> LET x == RegisterF(s, o.u) IN [st |-> x.st, ok |-> ConcReplyOk(x.reply, o.reply, FALSE)]
+    CASE o.op = "register" -> LET x == RegisterF(s, o.u) IN [st |-> x.st, ok |-> ConcReplyOk(x.reply, o.reply, FALSE), sends |-> {}]
       [] o.op = "add" -> LET a == [l |-> o.l, blob |-> [key |-> o.key, pay |-> o.pay, size |-> o.size], tsd |-> o.tsd, ver |-> o.ver]
                              x == AddAppointmentF(s, o.who, a, orc)
                              \* the stored start block is the one the reply states
                              fix(t) == IF o.reply.code = "ok" /\ x.reply.code = "ok"
                                        THEN {IF Key(r) = <<o.who, o.l>> /\ r.ver = o.ver THEN [r EXCEPT !.start = o.reply.start] ELSE r : r \in t} ELSE t
-                         IN [st |-> [x.st EXCEPT !.appts = fix(@)], ok |-> ConcReplyOk(x.reply, o.reply, TRUE) /\ x.abort = ""]
-      [] o.op = "get" -> [st |-> s, ok |-> ConcReplyOk(GetAppointmentF(s, o.who, o.l), o.reply, FALSE)]
+                         IN [st |-> [x.st EXCEPT !.appts = fix(@)], ok |-> ConcReplyOk(x.reply, o.reply, TRUE) /\ x.abort = "", sends |-> x.sends]
+      [] o.op = "get" -> [st |-> s, ok |-> ConcReplyOk(GetAppointmentF(s, o.who, o.l), o.reply, FALSE), sends |-> {}]
       [] o.op = "sub" -> LET x == GetSubscriptionInfoF(s, o.who)
-                         IN [st |-> s, ok |-> ConcReplyOk(x, o.reply, FALSE) /\ (x.code = "ok" => x.locators = ToSetOf(o.reply.locators))]
-      [] OTHER -> [st |-> s, ok |-> FALSE]
+                         IN [st |-> s, ok |-> ConcReplyOk(x, o.reply, FALSE) /\ (x.code = "ok" => x.locators = ToSetOf(o.reply.locators)), sends |-> {}]
+      [] OTHER -> [st |-> s, ok |-> FALSE, sends |-> {}]
 
 \* merged order: item k of the merged sequence is either chain step (k counts) or an API op; represented by a function
 \* pos : api ops -> 0..nsteps (the op runs after that many chain steps) and a permutation f breaking ties.
-RECURSIVE RunMerged(_, _, _, _, _, _, _, _)
-RunMerged(s, apis, f, pos, steps, done, i, orc) ==
-    \* done = number of chain steps applied; i = index into the permuted api list
+RECURSIVE RunMerged(_, _, _, _, _, _, _, _, _)
+RunMerged(s, apis, f, pos, steps, done, i, orc, sent) ==
+    \* done = number of chain steps applied; i = index into the permuted api list; sent = transactions submitted so far
     IF i > Len(apis)
-    THEN [st |-> (LET RECURSIVE Rest(_, _)
-                      Rest(x, k) == IF k > Len(steps) THEN x ELSE Rest(ApplyChainStep(x, steps[k], orc), k + 1)
-                  IN Rest(s, done + 1)), ok |-> TRUE]
+    THEN LET RECURSIVE Rest(_, _, _)
+             Rest(x, k, sn) == IF k > Len(steps) THEN [st |-> x, ok |-> TRUE, sends |-> sn]
+                               ELSE LET y == ChainStepX(x, steps[k], orc) IN Rest(y.st, k + 1, sn \cup y.sends)
+         IN Rest(s, done + 1, sent)
     ELSE IF pos[f[i]] > done
-    THEN RunMerged(ApplyChainStep(s, steps[done + 1], orc), apis, f, pos, steps, done + 1, i, orc)
+    THEN LET y == ChainStepX(s, steps[done + 1], orc) IN RunMerged(y.st, apis, f, pos, steps, done + 1, i, orc, sent \cup y.sends)
     ELSE LET r == ApplyApi(s, apis[f[i]], orc)
-         IN IF ~r.ok THEN [st |-> s, ok |-> FALSE] ELSE RunMerged(r.st, apis, f, pos, steps, done, i + 1, orc)
+         IN IF ~r.ok THEN [st |-> s, ok |-> FALSE, sends |-> sent] ELSE RunMerged(r.st, apis, f, pos, steps, done, i + 1, orc, sent \cup r.sends)
 
 ConcStateOk(x, log) ==
     /\ x.users = log.users /\ x.gk = log.gk /\ x.appts = log.appts
     /\ ProjT(x.trackers) = ProjT(log.trackers)
 
-Linearizable(s, ops, orc, ch, tip, log) ==
+Linearizable(s, ops, orc, ch, tip, log, sentObserved) ==
     LET apiIdx == {i \in 1..Len(ops) : ops[i].op # "poll"}
         apis == [k \in 1..Cardinality(apiIdx) |-> ops[CHOOSE i \in apiIdx : Cardinality({j \in apiIdx : j < i}) = k - 1]]
         polled == \E i \in 1..Len(ops) : ops[i].op = "poll"
@@ -502,9 +506,9 @@ Linearizable(s, ops, orc, ch, tip, log) ==
         n == Len(apis)
     IN \E f \in Permutations(1..n) : \E pos \in [1..n -> 0..Len(steps)] :
           /\ \A i \in 1..(n - 1) : pos[f[i]] <= pos[f[i + 1]]
-          /\ LET r == RunMerged(s, apis, f, pos, steps, 0, 1, orc)
+          /\ LET r == RunMerged(s, apis, f, pos, steps, 0, 1, orc, {})
                  fin == IF polled THEN (IF Len(ch) = 0 THEN PollCommonF(r.st) ELSE PollOkF(r.st, tip)) ELSE r.st
-             IN r.ok /\ ConcStateOk(fin, log)
+             IN r.ok /\ ConcStateOk(fin, log) /\ r.sends = sentObserved
 
 StepConc ==
     /\ Ev.act = "Conc"
@@ -530,7 +534,7 @@ StepConc ==
                 \cup (IF Ev.deadlock THEN T("C11", "deadlock") ELSE {})
                 \cup (IF Ev.timeout /\ ~Ev.deadlock THEN T("C11", "hung:conc") ELSE {})
                 \cup {<<l, "C11", "abort:" \o Ev.aborts[i][2]>> : i \in 1..Len(Ev.aborts)}
-                \cup (IF ~blocked /\ ~aborted /\ ~Linearizable(st, Ev.ops, orc, Ev.chain, Ev.tip, log) THEN T("C10", "not_linearizable") ELSE {})
+                \cup (IF ~blocked /\ ~aborted /\ ~Linearizable(st, Ev.ops, orc, Ev.chain, Ev.tip, log, SendsOf(Ev.rpc)) THEN T("C10", "not_linearizable") ELSE {})
                 \cup (IF ~blocked /\ ~aborted THEN ConservationTags(grC, log) \cup Lift(C07_Copies(log)) ELSE {})
                 \cup (IF ~blocked /\ ~NoDangling(log) THEN T("C10", "orphan_record") ELSE {})
           /\ alive' = (alive /\ ~blocked /\ ~aborted)
